@@ -5,7 +5,7 @@ Workload B: pager histories (Hypothesis stateful machines) against RefPaging  - 
 """
 import hashlib
 
-from . import gen_lock, lockstep, p08_hist
+from . import gen_lock, lockstep, p08_hist, p05
 from .harness import new_result, fail, bump
 
 PROP = 'C08'
@@ -24,6 +24,14 @@ def gen(rng, tier, index):
     if index < N_PAIRS[tier]:
         # exhaustive length-2 pager histories: thorough enumerates all (copy, engine, v1); quick draws a seeded subset
         return p08_hist.gen_pairs(index if tier == 'thorough' else rng.randrange(p08_hist.pairs_total()))
+    if index % 4 == 2:
+        # boundary-value register sweep of one dispatch slot on one replica, judged by the range invariants only;
+        # enumerated engine-major so that a quick batch covers every slot of the C, Python and contended C engines
+        k = index // 4
+        scn = p05.gen_regsweep(rng, tier, (k % gen_lock.N_SLOTS) * 4)
+        scn['kind'] = 'range-sweep'
+        scn['engine'] = ('c', 'py', 'ccmio', 'pycmio', 'pyfast')[(k // gen_lock.N_SLOTS) % 5]
+        return scn
     if index % 4 == 3:
         return p08_hist.gen(rng, tier, index // 4)
     index = index - index // 4 - 1 if index % 4 == 3 else index - index // 4
@@ -47,7 +55,56 @@ def gen(rng, tier, index):
         scn['tracer']['present'] = True
     return scn
 
+def run_range_sweep(scn):
+    import random
+    res = new_result()
+    rng = random.Random(scn['cseed'])
+    mem = {'machine': '48K', 'ram': {'fill': 0}, 'patches': [[scn['pc'], bytes(scn['code']).hex()]]}
+    base = {'kind': 'wstep', 'machine': '48K', 'mem': mem, 'regs': [0] * 30, 'tracer': {'present': True, 'in_r_c': True, 'ini': True}, 'reads': [0xFF], 'steps': 1, 'ints': [], 'replicas': [scn['engine']]}
+    st = lockstep.materialise_state(base)
+    rp = lockstep.get_replica(scn['engine'], '48K')
+    rp.reset(st)
+    regs = rp.sim.registers
+    rom = bytes(rp.sim.memory[0:0x4000])
+    limits = [255] * 12 + [65535, 65535, 255, 255] + [255] * 8 + [65535, None, 1, 2, 1, 65535]
+    for case in range(scn['cases']):
+        state = p05.sweep_state(rng, scn['pc'])
+        for i, v in enumerate(state):
+            regs[i] = v
+        if rp.world is not None:
+            rp.world.n = 0
+            del rp.world.log[:]
+        try:
+            rp.step()
+        except Exception as e:
+            return fail(res, 'C08/exception/%s/%s' % (scn['engine'], type(e).__name__), '%s raised %s: %s for code %s\n pre: %s' % (scn['engine'], type(e).__name__, e, bytes(scn['code']).hex(), lockstep._fmt_regs(state)))
+        got = rp.regs()
+        bump(res, 'events')
+        bump(res, 'range_sweep_cases')
+        for i, v in enumerate(got):
+            if i == 13:
+                continue
+            lim = limits[i]
+            if v < 0 or (lim is not None and v > lim):
+                return fail(res, 'C08/range/%s' % lockstep.REGNAMES[i], '%s: register %s=%d out of range after code %s (boundary sweep case %d)\n pre: %s' % (
+                    scn['engine'], lockstep.REGNAMES[i], v, bytes(scn['code']).hex(), case, lockstep._fmt_regs(state)))
+        if got[25] < state[25]:
+            return fail(res, 'C08/clock-decreased', '%s: T went from %d to %d after code %s' % (scn['engine'], state[25], got[25], bytes(scn['code']).hex()))
+    try:
+        now = bytes(rp.sim.memory[0:0x4000])
+        bytes(rp.sim.memory[0x4000:0x10000])
+    except ValueError as e:
+        return fail(res, 'C08/range/memory', '%s: a memory cell left 0..255 after code %s: %s' % (scn['engine'], bytes(scn['code']).hex(), e))
+    if now != rom:
+        j = next(i for i in range(0x4000) if now[i] != rom[i])
+        return fail(res, 'C08/rom-modified', '%s: ROM byte %d changed from %d to %d by code %s' % (scn['engine'], j, rom[j], now[j], bytes(scn['code']).hex()))
+    res['sigs'] = ['range-sweep|%d|%s' % (scn['slot'], scn['engine'])]
+    res['digest'] = hashlib.sha256(('%d|%s' % (scn['slot'], scn['cases'])).encode()).hexdigest()
+    return res
+
 def run(scn):
+    if scn['kind'] == 'range-sweep':
+        return run_range_sweep(scn)
     if scn['kind'] in ('pager-sim', 'skool-memory', 'pager-pairs'):
         return p08_hist.run(scn)
     res = new_result()
@@ -61,12 +118,16 @@ def run(scn):
     return res
 
 def sample(scn, res):
+    if scn['kind'] == 'range-sweep':
+        return scn
     if scn['kind'] in ('pager-sim', 'skool-memory', 'pager-pairs'):
         return {k: v for k, v in scn.items() if k != 'banks'}
     return {'kind': scn['kind'], 'machine': scn['machine'], 'slot': scn.get('slot'), 'steps': scn['steps'], 'ints': scn['ints'],
             'regs': scn['regs'], 'o7ffd': scn['mem'].get('o7ffd'), 'patches': scn['mem']['patches'][-1:]}
 
 def shrink_candidates(scn):
+    if scn['kind'] == 'range-sweep':
+        return []
     if scn['kind'] in ('pager-sim', 'skool-memory', 'pager-pairs'):
         return p08_hist.shrink_candidates(scn)
     return gen_lock.shrink_candidates(scn)
